@@ -173,6 +173,7 @@ def run_writer(cfg, res):
     changes = []
     mcount = 0
     nrounds = r.randint(2, 8)
+    fam = r.choice([0, 0, 1, 2])
     # a persistent backend condition for some of the rounds: the disk is full (every create raises) or some files are
     # damaged (every write to them raises); attempts count as operations performed on the backend
     sick = None
@@ -189,6 +190,10 @@ def run_writer(cfg, res):
         if r.random() < 0.6:
           mcount += 1
           m = 'new%d' % mcount
+          if fam == 1:
+            m = 'carbon.agents.host-a.new%d' % mcount       # the daemon's own prefix: limited like every other series
+          elif fam == 2 and mcount % 2:
+            m = 'carbon.relays.r1.new%d;dc=a' % mcount
         else:
           m = 'new%d' % r.randint(1, max(1, mcount))
         cache.store(m, (int(vt.time()) - r.randint(0, 5), 1.0))
